@@ -26,7 +26,7 @@ Floats are IEEE bit patterns.
      `id,x,y;…` in registration order, `source,target;…` by edge number, `xmin,xmax,ymin,ymax,csize,lsize`, and per call the
      tracks `STATES#inference#names#obs_noise#positions` separated by `/`, the first failing track being `E<kind>`.
   match3 / curv3 / net3 : the same three commands on data WITH ALTITUDES (`Model/MapMatchZ`): every point is `x,y,z` (edge
-     vertices, node coordinates, observations); a state is `px,py,edge,d0,d1,pz`; positions come back as `x,y,z`; `net3` replies
+     vertices, node coordinates, observations; a vertex may be written `x,y`: `wktVertex`); a state is `px,py,edge,d0,d1,pz`; positions come back as `x,y,z`; `net3` replies
      one more field after the `abs_curv` columns: the edge weights `Track.length()` (3D) by edge number. -/
 namespace TV.Drv.C10
 open TV.Proj TV.MapMatch TV.Drv
@@ -153,10 +153,11 @@ def showNet (net : Net Float) : String :=
 
 /-! ### data with altitudes (`Model/MapMatchZ`) -/
 
+/-- a point `x,y,z`, or `x,y` as `wktLineStringToObs` reads a 2D vertex (altitude 0) -/
 def pt3? (s : String) : Option (P3 Float) :=
   match (splitTok s ',').mapM float? with
-  | some [x, y, z] => some (x, y, z)
-  | _ => none
+  | some l => wktVertex l
+  | none => none
 
 def geom3? (s : String) : Option (List (P3 Float)) := (splitTok s ';').mapM pt3?
 
